@@ -55,6 +55,9 @@ type Case struct {
 	// DecoyPrefixOverrides: import_path_overrides entries whose keys are proper string prefixes of the struct
 	// import path without being a path prefix of it (`…/k5` for `…/k5s`): they match no package.
 	DecoyPrefixOverrides bool
+	// CleanedPkgName: go_package is a bare import path whose last element is no identifier ("…/go-<name>.v1"),
+	// so the Go package name is what gogo makes of it ("go_<name>_v1"); the structs live at that path.
+	CleanedPkgName bool
 	// PrefixTarget: the target package name is a proper prefix of the struct package name (k5s -> k5).
 	PrefixTarget bool
 	// TypesNamedPkg: the struct package is called `types` (like the framework package the generated file
@@ -110,6 +113,9 @@ func (w *Workspace) Prepare(c *Case) {
 	if c.MixedCasePkg && c.File.Dep == nil {
 		c.File.GoPackage = c.Name + "Api"
 	}
+	if c.Separate && c.CleanedPkgName && c.File.Dep == nil {
+		c.File.GoPackage = "vw/cases/" + c.Name + "/go-" + c.Name + ".v1"
+	}
 	c.StructPkg = structPkgName(c.File)
 	base := "vw/cases/" + c.Name
 	if c.Separate && c.ForeignGoPackage && c.UseOverride && c.File.Dep == nil {
@@ -122,6 +128,9 @@ func (w *Workspace) Prepare(c *Case) {
 		}
 		if c.HyphenPath {
 			c.StructImport = base + "/go-" + c.StructPkg + "_x"
+		}
+		if c.CleanedPkgName && c.File.Dep == nil {
+			c.StructImport = c.File.GoPackage
 		}
 		if c.TimeSuffixPath {
 			c.StructImport = base + "/uptime"
@@ -203,6 +212,10 @@ func (w *Workspace) Prepare(c *Case) {
 		}
 		yamlPath = filepath.Join(w.Dir, dir, c.Name+".yaml")
 		ioutil.WriteFile(yamlPath, []byte(yaml), 0o644)
+		if c.CfgDir != "" {
+			// the parameter names the file the way the caller spelled it (`./`, `..` and `//` elements are kept)
+			yamlPath = w.Dir + "/" + dir + "/" + c.Name + ".yaml"
+		}
 	}
 	c.Param = descgen.Param(params, yamlPath)
 	if c.RawParam != nil {
